@@ -617,6 +617,22 @@ def replay(doc, path):
             if attempt_no:
                 print(f"replay: reproduced at attempt {attempt_no + 1} (outcome is not a function of the configuration alone)")
             break
+    parts = doc.get("violation", {}).get("parts", [])
+    if not differing and any(str(p).startswith("cli_") for p in parts):
+        # the recorded disagreement was on the command line
+        workdir = tempfile.mkdtemp(prefix="c09cli_")
+        try:
+            write_docs(workdir, [d for d in documents if d[0] == target])
+            uri = os.path.join(workdir, f"{target}.json")
+            files = [run_cli_output(conf, uri) for conf in case["configs"]]
+            outs = [run_cli(conf, uri) for conf in case["configs"]]
+        finally:
+            shutil.rmtree(workdir, ignore_errors=True)
+        if any(f != files[0] for f in files[1:]):
+            differing.append("cli_output_file")
+        if any(o != outs[0] for o in outs[1:]):
+            differing.append("cli_stdout")
+        res = [{"docs": {target: {"names": None}}} for _ in case["configs"]]
     if not differing:
         print(f"replay: configurations agree for {path}")
         return 0
@@ -761,9 +777,18 @@ def _check(tier, seed, n_docs, configs, orders_reachable, n_cli, n_cli_conf, wor
         )
         if other is None:  # only the CLI disagreed, or the configuration with itself
             other = 0 if doc_id in self_bad else 1
-        conf_a, conf_b = configs[0], configs[other]
+        conf_a, conf_b = dict(configs[0], _cli_index=0), dict(configs[other], _cli_index=other)
         deadline = time.time() + budget
-        if target_disagrees([(doc_id, doc, ext)], [conf_a, conf_b], [[doc_id], [doc_id]], doc_id):
+        cli_only = all(str(part).startswith("cli_") for part in bad[doc_id])
+        if cli_only:
+            # only the command line disagreed: the document alone, replayed
+            # through the command line
+            small, small_ext = doc, ext
+            documents = [{"id": "replay", "document": doc, "ext": ext}]
+            orders = [["replay"], ["replay"]]
+            target = "replay"
+            kind = "configuration (command line)"
+        elif target_disagrees([(doc_id, doc, ext)], [conf_a, conf_b], [[doc_id], [doc_id]], doc_id):
             # depends on the interpreter configuration alone: minimise the document
             small, small_ext = minimise_doc(doc, ext, dict(conf_a, order=0), dict(conf_b, order=0), budget)
             documents = [{"id": "replay", "document": small, "ext": small_ext}]
